@@ -1,0 +1,22 @@
+//go:build verif
+
+// Contracts for package lightning (comment-only, read by /verif/govc; never compiled
+// into the product: the build tag "verif" is not set by any build of peerswap).
+package lightning
+
+// C08: the preimage a maker generates for a swap; its hex form goes into the
+// invoice, its hash into the opening output. String / Hash are hex encoding and
+// sha256 (library code): uninterpreted functions of the 32 bytes.
+//@ ghost genPreimage Preimage
+
+//@ func GetPreimage
+//@ trusted
+//@ sets ghost.genPreimage = result0
+//@ assigns nothing
+
+//@ func (Preimage).String
+//@ pure
+//@ func (*Preimage).Hash
+//@ purevalue
+//@ func (Hash).String
+//@ pure
